@@ -1308,6 +1308,10 @@ pub fn run_c06(ctx: &Ctx) -> i32 {
                             ("wf-request-without-offset", WfCodec::request(Some(some_id), None, true, true)),
                             ("wf-request-unknown-id", WfCodec::request(Some(0x99), Some(off), true, true)),
                             ("wf-request-without-file-element", WfCodec::request(None, None, true, false)),
+                            // a good id and offset followed by a payload element (which only the client ever sends) whose length
+                            // overruns the file element; every enclosing length is consistent
+                            ("wf-request-with-an-overrunning-payload-element", raw(vec![0x1d, 0x01, some_id, 0x1e, 0x04, o[0], o[1], o[2], o[3], 0x1c, 0x05, 0xaa])),
+                            ("wf-request-with-an-overrunning-payload-element", raw(vec![0x1d, 0x01, some_id, 0x1e, 0x04, o[0], o[1], o[2], o[3], 0x1c, 0x81, 0x80, 0xaa, 0xbb])),
                         ] {
                             faults.push(Fault { kind, at_ack, bytes: bytes.clone(), eof: false, followed_by: vec![] });
                             faults.push(Fault { kind, at_ack, bytes, eof: false, followed_by: carry.clone() });
